@@ -112,7 +112,7 @@ def c25(res, tier, seed):
 # ============================================================================ C39
 def _k39(e):
     if e["op"] == "sweep32":
-        return ["sweep32", e["sign"], e["exp"]]
+        return ["sweep32", e["sign"], e["ex"]]
     v = e.get("v", [])
     kind = e["kind"]
     if kind in ("float", "double"):
